@@ -1046,8 +1046,12 @@ def m_clone_seq(engine, ctx, args, callee, frame):
             return v
         return Ref(deref_cell(v))
     if isinstance(v, Ref) and v.window is not None:
-        return deep_copy(engine.apply_window(v))
-    return deep_copy(deref(v))
+        r = deep_copy(engine.apply_window(v))
+    else:
+        r = deep_copy(deref(v))
+    if isinstance(r, Agg) and r.kind == "array" and ("to_vec" in callee or "to_owned" in callee):
+        return VecV("_", r.fields)
+    return r
 
 
 @model(r"^(std::string::)?String::new$")
@@ -1065,6 +1069,16 @@ def m_from_utf8(engine, ctx, args, callee, frame):
 
 def seq_eq(engine, ctx, a, b):
     """equality of two byte sequences as a z3 condition (forks on lengths when symbolic)"""
+    da, db = deref(a), deref(b)
+    while isinstance(da, Agg) and da.kind == "struct" and len(da.fields) == 1:
+        da = da.fields[0].v
+    while isinstance(db, Agg) and db.kind == "struct" and len(db.fields) == 1:
+        db = db.fields[0].v
+    if getattr(da, "hash_term", False) or getattr(db, "hash_term", False):
+        from .merkle import hash_eq
+        c = hash_eq(ctx, da, db)
+        if c is not None:
+            return c
     ba, bb = as_bytes(engine, a), as_bytes(engine, b)
     if not ctx.branch(int_binop("Eq", ba.len, bb.len)):
         return False
@@ -1777,7 +1791,7 @@ def value_eq_cond(engine, ctx, a, b):
         return int_binop("Eq", a, b)
     if isinstance(a, bool) or isinstance(b, bool) or (z3.is_expr(a) and z3.is_bool(a)):
         return to_bool(bz3(a) == bz3(b))
-    if isinstance(a, Bytes) or isinstance(b, Bytes):
+    if isinstance(a, Bytes) or isinstance(b, Bytes) or getattr(a, "hash_term", False) or getattr(b, "hash_term", False):
         return seq_eq(engine, ctx, a, b)
     if isinstance(a, Agg) and isinstance(b, Agg):
         if len(a.fields) != len(b.fields):
@@ -2183,3 +2197,330 @@ def _json_bad(b):
 MODELS.append((re.compile(r"^serde_json::from_(slice|str)::<"), opaque_parser("serde_json", _json_bad)))
 MODELS.append((re.compile(r"^vcard4::parse::<"), opaque_parser("vcard4", _bad_first("Bb"))))
 MODELS.append((re.compile(r"^core::str::<impl str>::parse::<age::x25519::Identity>$"), opaque_parser("age::Identity", _bad_first("Aa"))))
+
+
+# ------------------------------------------------------------------ more slice / Vec / Option operations
+
+def seq_cells(engine, ctx, v):
+    """cells of a sequence (list; for Bytes materialised copies)"""
+    return seq_items(engine, ctx, v, True)
+
+
+@model(r"^core::slice::<impl \[.*\]>::(last|first)$|^(std::vec::)?Vec::<.*>::(last|first)$")
+def m_slice_last(engine, ctx, args, callee, frame):
+    items = seq_cells(engine, ctx, args[0])
+    if not items:
+        return none()
+    c = items[-1] if callee.endswith("last") else items[0]
+    return some(Ref(c))
+
+
+@model(r"^core::slice::<impl \[.*\]>::(last_mut|first_mut)$|^(std::vec::)?Vec::<.*>::(last_mut|first_mut)$")
+def m_slice_last_mut(engine, ctx, args, callee, frame):
+    items = seq_cells(engine, ctx, args[0])
+    if not items:
+        return none()
+    c = items[-1] if callee.endswith("last_mut") else items[0]
+    return some(Ref(c))
+
+
+@model(r"^core::slice::<impl \[.*\]>::(get|get_mut)::<usize>$|^(std::vec::)?Vec::<.*>::(get|get_mut)::<usize>$")
+def m_slice_get(engine, ctx, args, callee, frame):
+    v = args[0]
+    idx = args[1]
+    tgt = deref(v) if not (isinstance(v, Ref) and v.window is not None) else engine.apply_window(v)
+    if isinstance(tgt, Bytes):
+        if ctx.branch(int_binop("Lt", idx, tgt.len)):
+            return some(Ref(Cell(tgt.byte(idx))))
+        return none()
+    items = seq_cells(engine, ctx, v)
+    if idx.concrete:
+        if idx.v < len(items):
+            return some(Ref(items[idx.v]))
+        return none()
+    if ctx.branch(int_binop("Lt", idx, Int(len(items), 64))):
+        k = ctx.concretize(idx, len(items) + 1, "slice index")
+        return some(Ref(items[k]))
+    return none()
+
+
+@model(r"^(std::option::)?Option::<&.*>::(cloned|copied)$")
+def m_option_cloned(engine, ctx, args, callee, frame):
+    r = args[0]
+    if r.variant == "None":
+        return none()
+    return some(deep_copy(deref(r.fields[0].v)))
+
+
+@model(r"^(std::option::)?Option::<.*>::unwrap_or$")
+def m_option_unwrap_or(engine, ctx, args, callee, frame):
+    r = args[0]
+    return r.fields[0].v if r.variant == "Some" else args[1]
+
+
+@model(r"^(std::option::)?Option::<.*>::unwrap_or_else::<")
+def m_option_unwrap_or_else(engine, ctx, args, callee, frame):
+    r = args[0]
+    return r.fields[0].v if r.variant == "Some" else engine.call_closure(args[1], [])
+
+
+@model(r"^(std::option::)?Option::<.*>::and_then::<")
+def m_option_and_then(engine, ctx, args, callee, frame):
+    r = args[0]
+    if r.variant == "None":
+        return none()
+    return engine.call_closure(args[1], [r.fields[0].v])
+
+
+@model(r"^(std::option::)?Option::<.*>::map_or::<|^(std::option::)?Option::<.*>::is_some_and::<")
+def m_option_map_or(engine, ctx, args, callee, frame):
+    r = args[0]
+    if "is_some_and" in callee:
+        if r.variant == "None":
+            return False
+        return engine.call_closure(args[1], [r.fields[0].v])
+    if r.variant == "None":
+        return args[1]
+    return engine.call_closure(args[2], [r.fields[0].v])
+
+
+@model(r"^(std::option::)?Option::<.*>::(insert|replace)$")
+def m_option_insert(engine, ctx, args, callee, frame):
+    cell = deref_cell(args[0])
+    old = cell.v
+    cell.v = some(args[1])
+    if callee.endswith("replace"):
+        return old
+    return Ref(cell.v.fields[0])
+
+
+@model(r"^<(std::option::)?Option<.*> as PartialEq>::(eq|ne)$")
+def m_option_eq(engine, ctx, args, callee, frame):
+    a, b = deref(args[0]), deref(args[1])
+    c = value_eq_cond(engine, ctx, a, b)
+    return b_not(c) if callee.endswith("ne") else c
+
+
+@model(r"^core::slice::<impl \[.*\]>::to_vec$|^<\[.*\] as ToOwned>::to_owned$|^<&\[.*\] as Into<Vec<.*>>>::into$|^<(std::vec::)?Vec<.*> as From<&\[.*\]>>::from$")
+def m_to_vec(engine, ctx, args, callee, frame):
+    v = args[0]
+    tgt = engine.apply_window(v) if (isinstance(v, Ref) and v.window is not None) else deref(v)
+    if isinstance(tgt, Bytes):
+        return tgt
+    items = seq_cells(engine, ctx, v)
+    return VecV("_", [Cell(deep_copy(c.v)) for c in items])
+
+
+@model(r"^core::slice::<impl \[.*\]>::contains$|^(std::vec::)?Vec::<.*>::contains$")
+def m_slice_contains(engine, ctx, args, callee, frame):
+    for c in seq_cells(engine, ctx, args[0]):
+        if key_eq(engine, ctx, c.v, args[1]):
+            return True
+    return False
+
+
+@model(r"^(std::vec::)?Vec::<.*>::(append)$")
+def m_vec_append(engine, ctx, args, callee, frame):
+    dst = deref_cell(args[0])
+    src = deref_cell(args[1])
+    if isinstance(dst.v, Bytes) or isinstance(src.v, Bytes):
+        a, b = as_bytes(engine, dst.v), as_bytes(engine, src.v)
+        na = ctx.concretize(a.len, 64, "Vec<u8> append")
+        nb = ctx.concretize(b.len, 64, "Vec<u8> append")
+        dst.v = bytes_from_ints([a.byte(i) for i in range(na)] + [b.byte(i) for i in range(nb)])
+        src.v = bytes_from_concrete(b"")
+        return unit()
+    dst.v.items.extend(src.v.items)
+    src.v.items[:] = []
+    return unit()
+
+
+@model(r"^(std::vec::)?Vec::<.*>::extend_from_slice$|^<(std::vec::)?Vec<.*> as Extend<.*>>::extend::<")
+def m_vec_extend(engine, ctx, args, callee, frame):
+    dst = deref_cell(args[0])
+    if isinstance(dst.v, Bytes):
+        a, b = as_bytes(engine, dst.v), as_bytes(engine, args[1])
+        na = ctx.concretize(a.len, 64, "Vec<u8> extend")
+        nb = ctx.concretize(b.len, 64, "Vec<u8> extend")
+        dst.v = bytes_from_ints([a.byte(i) for i in range(na)] + [b.byte(i) for i in range(nb)])
+        return unit()
+    src = args[1]
+    if isinstance(src, IterV) or (isinstance(src, Agg) and src.ty == "Range"):
+        items = drain(engine, ctx, as_iter(engine, ctx, src))
+        dst.v.items.extend(Cell(x) for x in items)
+        return unit()
+    by_val = not isinstance(src, Ref)
+    for c in seq_cells(engine, ctx, src):
+        dst.v.items.append(Cell(c.v if by_val else deep_copy(c.v)))
+    return unit()
+
+
+@model(r"^(std::vec::)?Vec::<.*>::pop$")
+def m_vec_pop(engine, ctx, args, callee, frame):
+    v = deref(args[0])
+    if isinstance(v, Bytes):
+        raise Untranslatable("Vec<u8>::pop")
+    if not v.items:
+        return none()
+    return some(v.items.pop().v)
+
+
+@model(r"^(std::vec::)?Vec::<.*>::insert$")
+def m_vec_insert(engine, ctx, args, callee, frame):
+    v = deref(args[0])
+    k = ctx.concretize(args[1], 64, "Vec::insert index")
+    if k > len(v.items):
+        raise Panic("insertion index (is %d) should be <= len (is %d)" % (k, len(v.items)), (frame.fn.name if frame else None,))
+    v.items.insert(k, Cell(args[2]))
+    return unit()
+
+
+@model(r"^(std::vec::)?Vec::<.*>::remove$")
+def m_vec_remove(engine, ctx, args, callee, frame):
+    v = deref(args[0])
+    k = ctx.concretize(args[1], 64, "Vec::remove index")
+    if k >= len(v.items):
+        raise Panic("removal index (is %d) should be < len (is %d)" % (k, len(v.items)), (frame.fn.name if frame else None,))
+    return v.items.pop(k).v
+
+
+@model(r"^(std::vec::)?Vec::<.*>::truncate$")
+def m_vec_truncate(engine, ctx, args, callee, frame):
+    cell = deref_cell(args[0])
+    v = cell.v
+    k = ctx.concretize(args[1], 64, "Vec::truncate length")
+    if isinstance(v, Bytes):
+        if ctx.branch(int_binop("Lt", Int(k, 64), v.len)):
+            cell.v = Bytes(v.arr, v.off, Int(k, 64), v.utf8)
+        return unit()
+    del v.items[k:]
+    return unit()
+
+
+@model(r"^(std::vec::)?Vec::<.*>::split_off$")
+def m_vec_split_off(engine, ctx, args, callee, frame):
+    v = deref(args[0])
+    k = ctx.concretize(args[1], 64, "Vec::split_off index")
+    if k > len(v.items):
+        raise Panic("`at` split index (is %d) should be <= len (is %d)" % (k, len(v.items)), (frame.fn.name if frame else None,))
+    tail = v.items[k:]
+    del v.items[k:]
+    return VecV(v.ty, tail)
+
+
+@model(r"^core::slice::<impl \[.*\]>::reverse$")
+def m_slice_reverse(engine, ctx, args, callee, frame):
+    v = deref(args[0])
+    if isinstance(v, VecV):
+        v.items.reverse()
+        return unit()
+    raise Untranslatable("reverse of %s" % type(v).__name__)
+
+
+def ordering_to_int(engine, ctx, o):
+    return {"Less": -1, "Equal": 0, "Greater": 1}[o.variant]
+
+
+@model(r"^core::slice::<impl \[.*\]>::(sort_by|sort_unstable_by)::<")
+def m_sort_by(engine, ctx, args, callee, frame):
+    """stable insertion sort; comparisons executed through the closure's MIR"""
+    v = deref(args[0])
+    if not isinstance(v, VecV):
+        raise Untranslatable("sort_by on %s" % type(v).__name__)
+    f = args[1]
+    items = v.items
+    out = []
+    for c in items:
+        pos = len(out)
+        while pos > 0:
+            o = engine.call_closure(f, [Ref(out[pos - 1]), Ref(c)])
+            if ordering_to_int(engine, ctx, o) > 0:
+                pos -= 1
+            else:
+                break
+        out.insert(pos, c)
+    v.items[:] = out
+    return unit()
+
+
+@model(r"^core::slice::<impl \[.*\]>::(sort_by_key|sort_unstable_by_key)::<")
+def m_sort_by_key(engine, ctx, args, callee, frame):
+    v = deref(args[0])
+    f = args[1]
+    keyed = [(engine.call_closure(f, [Ref(c)]), c) for c in v.items]
+    out = []
+    for k, c in keyed:
+        pos = len(out)
+        while pos > 0:
+            o = compare_values(engine, ctx, out[pos - 1][0], k)
+            if o > 0:
+                pos -= 1
+            else:
+                break
+        out.insert(pos, (k, c))
+    v.items[:] = [c for _, c in out]
+    return unit()
+
+
+def compare_values(engine, ctx, a, b):
+    """three-way comparison of two values -> -1/0/1 (forks)"""
+    a, b = deref(a), deref(b)
+    if isinstance(a, Int) and isinstance(b, Int):
+        if ctx.branch(int_binop("Lt", a, b)):
+            return -1
+        if ctx.branch(int_binop("Eq", a, b)):
+            return 0
+        return 1
+    if isinstance(a, Agg) and isinstance(b, Agg):
+        for x, y in zip(a.fields, b.fields):
+            r = compare_values(engine, ctx, x.v, y.v)
+            if r != 0:
+                return r
+        return 0
+    if isinstance(a, (Bytes,)) or isinstance(b, Bytes):
+        ba, bb = as_bytes(engine, a), as_bytes(engine, b)
+        na = ctx.concretize(ba.len, 64, "cmp length")
+        nb = ctx.concretize(bb.len, 64, "cmp length")
+        for i in range(min(na, nb)):
+            r = compare_values(engine, ctx, ba.byte(i), bb.byte(i))
+            if r != 0:
+                return r
+        return (na > nb) - (na < nb)
+    if isinstance(a, EnumV) and isinstance(b, EnumV):
+        if a.discr != b.discr:
+            return -1 if (a.discr or 0) < (b.discr or 0) else 1
+        for x, y in zip(a.fields, b.fields):
+            r = compare_values(engine, ctx, x.v, y.v)
+            if r != 0:
+                return r
+        return 0
+    raise Untranslatable("ordering of %s and %s" % (type(a).__name__, type(b).__name__))
+
+
+def ordering(i):
+    return EnumV("Ordering", {-1: "Less", 0: "Equal", 1: "Greater"}[i], i, [])
+
+
+@model(r"^<([ui](?:8|16|32|64|128|size)) as (Ord|PartialOrd)>::(cmp|partial_cmp)$")
+def m_int_cmp(engine, ctx, args, callee, frame):
+    o = ordering(compare_values(engine, ctx, args[0], args[1]))
+    return some(o) if callee.endswith("partial_cmp") else o
+
+
+@model(r"^<([ui](?:8|16|32|64|128|size)|bool) as PartialEq>::(eq|ne)$")
+def m_int_eq(engine, ctx, args, callee, frame):
+    c = value_eq_cond(engine, ctx, args[0], args[1])
+    return b_not(c) if callee.endswith("ne") else c
+
+
+@model(r"^<(std::vec::)?Vec<.*> as PartialEq>::(eq|ne)$|^<\[.*\] as PartialEq>::(eq|ne)$|^<&\[.*\] as PartialEq>::(eq|ne)$|^<\[.*; \d+\] as PartialEq>::(eq|ne)$|^core::array::equality::<impl PartialEq.*>::(eq|ne)$")
+def m_seq_eq_generic(engine, ctx, args, callee, frame):
+    a, b = deref(args[0]), deref(args[1])
+    ia, ib = seq_cells(engine, ctx, args[0]), seq_cells(engine, ctx, args[1])
+    if len(ia) != len(ib):
+        c = False
+    else:
+        c = True
+        for x, y in zip(ia, ib):
+            c = b_and(c, value_eq_cond(engine, ctx, x.v, y.v))
+    return b_not(c) if callee.endswith("ne") else c
